@@ -92,6 +92,13 @@ func c02Cases(thorough bool) []c02Case {
 			pages = append(pages, pageSpec{skip: s, limit: i64p(l)})
 		}
 	}
+	// negative values other than -1 (a negative limit means unbounded, a negative skip means none)
+	for _, s := range []*int64{nil, i64p(1), i64p(2), i64p(5), i64p(-2), i64p(math.MinInt64)} {
+		for _, l := range []int64{-2, -5, math.MinInt64, math.MinInt64 + 1} {
+			pages = append(pages, pageSpec{skip: s, limit: i64p(l)})
+		}
+	}
+	pages = append(pages, pageSpec{skip: i64p(-2)}, pageSpec{skip: i64p(-2), limit: i64p(2)}, pageSpec{skip: i64p(math.MinInt64), limit: i64p(1)}, pageSpec{skip: i64p(math.MinInt64), none: true})
 	for _, l := range []pageSpec{{}, {limit: i64p(1)}, {limit: i64p(math.MaxInt64)}, {none: true}} {
 		pages = append(pages, pageSpec{skip: i64p(math.MaxInt64), limit: l.limit, none: l.none}, pageSpec{skip: i64p(math.MaxInt64 - 1), limit: l.limit, none: l.none})
 	}
